@@ -2,6 +2,7 @@
    ellip, theta).  Statements only; proofs in Proofs/SymmetryProofs.v and
    Proofs/SkyProofs.v over kernels and grids REGENERATED from rendering.py. *)
 From Coq Require Import Reals ZArith.
+From Coquelicot Require Import Coquelicot.
 From PS Require Import Base.RBase Gen.Formulas Gen.Grid Proofs.SymmetryProofs Proofs.SkyProofs Proofs.HalfLight.
 Open Scope R_scope.
 
@@ -55,6 +56,27 @@ Theorem C02_half_light_at_grid_n_partial :
   494 / 1000 <= enclosed_fraction m (sersic_bn (INR m / 2)) <= 5005 / 10000.
 Proof. exact half_light_grid. Qed.
 
+(* that closed form is the regularised incomplete gamma function: (1/(m-1)!) int_0^b t^(m-1) exp(-t) dt *)
+Theorem C02_enclosed_fraction_is_incomplete_gamma : forall m b, (0 < m)%nat ->
+  is_RInt (fun t => exp (- t) * t ^ (m - 1) / INR (fact (m - 1))) 0 b (enclosed_fraction m b).
+Proof. exact enclosed_fraction_is_incomplete_gamma. Qed.
+
+(* and it is the light curve of the 1-D profile regenerated from rendering.py (2n = m integer, lg = log-gamma at 2n):
+   d/dr [flux P(2n, b_n (r/re)^(1/n))] = 2 pi r I(r) for every r > 0 *)
+Theorem C02_sersic_light_growth : forall lg flux re m r, 0 < re -> (0 < m)%nat -> exp (lg (2 * (INR m / 2))) = INR (fact (m - 1)) -> 0 < r ->
+  is_derive (fun x => flux * enclosed_fraction m (sersic_bn (INR m / 2) * rpow (x / re) (1 / (INR m / 2)))) r
+            (2 * PI * r * sersic1d lg r flux re (INR m / 2)).
+Proof. exact (fun lg flux re m r H1 H2 H3 => sersic1d_light_growth lg flux re m H1 H2 H3 r). Qed.
+
+(* hence the light between any radius a > 0 and r_eff is flux (P(2n, b_n) - P(2n, b_n (a/re)^(1/n))): r_eff is the radius
+   at which the enclosed fraction is P(2n, b_n), which the grid theorem above bounds by [0.494, 0.5005]  (partial: circular
+   1-D profile, integer 2n; the elliptical plane integral and the limit a -> 0 are not formalised) *)
+Theorem C02_light_inside_r_eff_partial : forall lg flux re m a, 0 < re -> (0 < m)%nat -> exp (lg (2 * (INR m / 2))) = INR (fact (m - 1)) ->
+  0 < a -> a <= re ->
+  is_RInt (fun r => 2 * PI * r * sersic1d lg r flux re (INR m / 2)) a re
+    (flux * enclosed_fraction m (sersic_bn (INR m / 2)) - flux * enclosed_fraction m (sersic_bn (INR m / 2) * rpow (a / re) (1 / (INR m / 2)))).
+Proof. exact (fun lg flux re m a H1 H2 H3 => sersic1d_light_to_re lg flux re m H1 H2 H3 a). Qed.
+
 Print Assumptions C02_grid_convention.
 Print Assumptions C02_centre_symmetry.
 Print Assumptions C02_major_axis.
@@ -62,3 +84,6 @@ Print Assumptions C02_minor_axis.
 Print Assumptions C02_three_paths_same_ellipse.
 Print Assumptions C02_theta_mod_pi.
 Print Assumptions C02_half_light_at_grid_n_partial.
+Print Assumptions C02_enclosed_fraction_is_incomplete_gamma.
+Print Assumptions C02_sersic_light_growth.
+Print Assumptions C02_light_inside_r_eff_partial.
